@@ -67,7 +67,7 @@ CLAIMED: dict[str, tuple[str, str, str, str]] = {
     ),
     "C17": (
         "Lean 4 theorems by structural induction over only/exclude/reduce_by_python_constraint, composed with C07's simplifier soundness and C11's conversion exactness + structural differential correspondence + truth oracle",
-        "Machine-checked, hypothesis-free on the full comparison-operator domain: `only_mentions` (the result mentions only the requested variables: the simplifier introduces no variable), `only_weakens_validate`, `exclude` on a conjunction of leaves is exactly the conjunction of the others, without_extras = exclude(\"extra\") (rfl), `reduce_exact_validate` (reduction by a Python range is exact incl. the MarkerUnion shortcut, for ranges whose bounds have two or three components). General forms relative to the leaf specification are kept as `_partial`. Every run compares model vs code on only/exclude/without_extras/reduce results and evaluates the three statements on the environment sample.",
+        "Machine-checked, hypothesis-free on the full comparison-operator domain: `only_mentions` (the result mentions only the requested variables: the simplifier introduces no variable), `only_weakens_validate`, `exclude` on a conjunction of leaves is exactly the conjunction of the others, without_extras = exclude(\"extra\") (rfl), the member list handed to the simplifier is a plain order-keeping filter (`exclude_members_eq_filter`), never mentions the removed variable (`exclude_members_not_mentioned`), is unchanged when the variable is absent, idempotent and commuting across variables (`exclude_members_absent` / `_idempotent` / `_commute`), `reduce_exact_validate` (reduction by a Python range is exact incl. the MarkerUnion shortcut, for ranges whose bounds have two or three components). General forms relative to the leaf specification are kept as `_partial`. Every run compares model vs code on only/exclude/without_extras/reduce results and evaluates the three statements on the environment sample.",
         TB + "only / exclude / reduce are hypothesis-free on the domain FullLeafLLs (comparison operators, ~=, python_version and python_full_version lists); ranges with one-component bounds and markers outside it are covered by the general forms + correspondence.",
         "DESIGN.md §4 C17",
     ),
